@@ -330,6 +330,7 @@ fn touched(op: &Op, before: &Url, after: &Url) -> Vec<&'static str> {
         Op::SetUsername(_) | Op::Quirk("username", _) => vec!["username"],
         Op::SetScheme(_) | Op::Quirk("protocol", _) => vec!["scheme", "port"],
         Op::Quirk(_, _) => vec![],
+        Op::Join(_) => vec!["scheme", "username", "password", "host", "port", "path", "query", "fragment"],
     }
 }
 
